@@ -219,6 +219,8 @@ class Source:
             if len(rest) == 2 and rest[0] in m.classes:
                 c = m.classes[rest[0]]
                 self.resolve_class_bases(c)
+                if rest[1].endswith("__setter") and rest[1][:-8] in c.setters:  # "<property>__setter" names the setter
+                    return m, c, c.setters[rest[1][:-8]], "setters"
                 for kind in ("methods", "properties", "setters"):
                     d = getattr(c, kind)
                     if rest[1] in d:
